@@ -1,12 +1,48 @@
 use crate::engine::Check;
 
+pub mod c04;
 pub mod c10;
 pub mod c14;
 
 pub fn all() -> Vec<Box<dyn Check>> {
-    vec![Box::new(c10::C10), Box::new(c14::C14)]
+    vec![Box::new(c04::C04), Box::new(c10::C10), Box::new(c14::C14)]
 }
 
 pub fn by_id(id: &str) -> Option<Box<dyn Check>> {
     all().into_iter().find(|c| c.id().eq_ignore_ascii_case(id))
+}
+
+/// First words of an error message, digits collapsed: stable enough for a signature.
+pub fn short(msg: &str) -> String {
+    let mut out = String::new();
+    let mut last_digit = false;
+    for c in msg.chars().take(60) {
+        if c.is_ascii_digit() {
+            if !last_digit {
+                out.push('#');
+            }
+            last_digit = true;
+        } else {
+            out.push(c);
+            last_digit = false;
+        }
+    }
+    out
+}
+
+pub fn short_histos(h: &[jxlref::entropy::Histo]) -> String {
+    let mut out = String::new();
+    for x in h.iter().take(3) {
+        match x {
+            jxlref::entropy::Histo::Prefix(l) => {
+                let used: Vec<(usize, u8)> = l.iter().copied().enumerate().filter(|x| x.1 > 0).take(40).collect();
+                out.push_str(&format!("Prefix(size={}, lengths={:?}) ", l.len(), used));
+            }
+            jxlref::entropy::Histo::Ans { dist, shift } => {
+                let used: Vec<(usize, u16)> = dist.iter().copied().enumerate().filter(|x| x.1 > 0).take(40).collect();
+                out.push_str(&format!("Ans(table={}, shift={}, dist={:?}) ", dist.len(), shift, used));
+            }
+        }
+    }
+    out
 }
